@@ -337,6 +337,12 @@ for _ in range(CASES):
     check("x % m in [0, m); = x on [0, m), = x + m on [-m, 0)",
           0 <= v_ % m_ < m_ and abs(v_ % m_ - (v_ if v_ >= 0 else v_ + m_))
           < 1e-12, f"{v_} % {m_}")
+for n in (0, 1, 4):
+    a_ = rarr(n)
+    check("zeros_like is all zeros, ones_like all ones, same length",
+          len(np.zeros_like(a_)) == n and len(np.ones_like(a_)) == n and
+          (np.zeros_like(a_) == 0).all() and (np.ones_like(a_) == 1).all(),
+          f"n={n}")
 for w in ("t", "logt", "LogT", "T", "LOGT", "Logit", "x_Y"):
     check("str.lower is idempotent and fixes lower-case strings",
           w.lower().lower() == w.lower() and
